@@ -144,9 +144,10 @@ func init() {
 			var jobs []Job
 			hist, ops, variants := 4, 45, "few"
 			if tier == "thorough" {
-				hist, ops, variants = 20, 120, "exhaustive"
+				// (20 histories x 64 configurations with exhaustive index subsets took hours on this VM)
+				hist, ops, variants = 6, 100, "exhaustive"
 			}
-			for _, c := range limitServed(configsFor(tier, seed+2, 14, 64), 2, seed) {
+			for _, c := range limitServed(configsFor(tier, seed+2, 14, 42), 2, seed) {
 				jobs = append(jobs, Job{Variant: "plain", Mode: "db.c02", Args: js(map[string]interface{}{"Cfg": c, "Histories": hist, "NOps": ops, "MaxVal": 20000, "BigPct": 20, "MaintPct": 22, "Restart": true, "Variants": variants, "FullCheckEvery": 0})})
 			}
 			if tier == "thorough" {
